@@ -1,43 +1,75 @@
 """C15  Replacing a component yields the same design as building it directly.
 
-spec/Replace.tla (configuration cfg : Position -> Class over a harness hierarchy, whole-design
-metadata `meta` as sets of tagged entries, actions Replace / ReplaceWithObj, invariants
-HistoryIndependent (meta = Meta(cfg)), NoLeftover, SameInterface, NetsWellFormed) and
-spec/ReplaceTrace.tla (trace validation).  Two families (harness/c15_designs.py): RTL (plain child,
-list elements, 2-D list elements, grand-child; palette with update / update_ff / lambda blocks,
-@s.func functions, U/RD/WR constraints, slices, nested children, constants, a placeholder) and CL
-(method ports, a non-blocking interface, update_once blocks, M constraints - also one declared by the
-parent on a method port of the replaceable child -, nested child, placeholder).
-  1. TLC checks the invariants of Replace.tla for every scenario (bounded histories) and, as a
-     canary, must find a violation for each model-level mutant (constant Bug).
-  2. spec -> code: TLC dumps the history graph of every scenario; EVERY path (history) is replayed
-     with the real replace_component / replace_component_with_obj; after the last step (every
-     prefix is a history of its own) the metadata projected through the public getters is compared
-     (i) with the specification's `meta` - inside TLC, ReplaceTrace.tla - and (ii) with a design
-     built from scratch for cfg; both designs are simulated on the same inputs; a reachability
-     sweep from the top must not reach any object of a removed component.
+spec/Replace.tla (configuration cfg : Position -> Class over a harness hierarchy with nested positions
+and a palette per position, constructor arguments arg of the hosting positions, whole-design metadata
+`meta` as sets of tagged entries, actions Replace / ReplaceWithObj, invariants HistoryIndependent
+(meta = Meta(cfg)), NoLeftover, SameInterface, NetsWellFormed) and spec/ReplaceTrace.tla (trace
+validation).  Three families (harness/c15_designs.py), every position with interface-compatible
+classes of different KINDS:
+  RTL  plain child, list elements, 2-D list elements, hosting child m (two wrapper classes) and
+       grand-child m.g; palette: update / update_ff (a wire, or the out-port itself) / lambda blocks,
+       @s.func functions, U/RD/WR constraints, slices, nested children with constants, a class with
+       CL inside (CallerPort connected to a sub-component's CalleePort, update_once, no external
+       method port), a placeholder;
+  PB   parent blocks of every kind (@update, @update_ff, @update_once, lambda, @s.func helper) that
+       write the child's in-ports (whole, slice, struct field) and read its out-ports (whole, slice,
+       field), its in-ports and a grand-child's port through the child; blocks over all list elements;
+       a block of the top reading a port two levels down; palette: comb / registers driving the ports
+       / internal method nets / more nested children with value nets between grand-children,
+       constants, slice and field connections; hosting position with two wrapper classes;
+  CL   method ports, a non-blocking interface, update_once blocks, M constraints (also declared by the
+       parent), @s.func helper and top-level block calling a (grand-)child's method port / interface,
+       nested child, a class with RTL inside (register sub-component, value nets, constant),
+       placeholder, hosting position with two wrapper classes.
+  1. TLC checks the invariants of Replace.tla over every scenario (bounded histories; one run per
+     family) and, as a canary inside the same run (MutantReport), every model-level mutant of the
+     replacement must break an invariant within two steps; in the thorough tier every mutant is also
+     run as a model of its own (constant Bug) and TLC must report a violated invariant.
+  2. spec -> code: TLC dumps the history graph of the scenarios; EVERY path (history) is replayed
+     with the real replace_component / replace_component_with_obj (every other history with the new
+     objects built before the design itself); after the last step (every prefix is a history of its
+     own) the metadata projected through the public getters is compared (i) with the specification's
+     `meta` - inside TLC, ReplaceTrace.tla - and (ii) with a design built from scratch for cfg; both
+     designs are simulated on the same inputs under DefaultPassGroup, Mamba2020 and SimpleSimPass
+     (quick tier: DefaultPassGroup and, for every other history, in turn one of the others) and compared on the top-level
+     outputs AND on the value of every signal of the design in every cycle (a register that does not
+     commit is seen there); a reachability sweep from the top must not reach any object of a removed
+     component.  Histories replace a position twice (A -> B -> A), a list element then its sibling,
+     a grand-child then its host and the host then the grand-child (replace_component on the host
+     re-uses the constructor arguments of the removed host: the nested position falls back).
   3. code -> spec: longer random histories are executed, an observation is recorded after every
      step and the whole history is validated by ReplaceTrace.tla; freshly elaborated designs are
      validated against the derived views (nets, writers, adjacency) of the specification.
-  4. canaries: corrupted copies of accepted observations must be rejected by TLC; corrupted copies
-     of real projections by the fresh-build comparison; a planted reference by the sweep.
+  4. canaries: corrupted copies of accepted observations, a history recorded with the wrong class and
+     a host replacement that ignores the constructor arguments must be rejected by TLC; corrupted
+     copies of real projections by the fresh-build comparison; a planted reference by the sweep; the
+     design of another class must simulate differently under every pass group; every register that a
+     parent's update_ff block writes into a replaceable component must change in the per-signal
+     trace of the design built from scratch, and a stuck copy of its column must be told apart.
 
 Violation keys: <category>-<container word>[:<kind>] for a metadata difference (category stale /
 missing / old-object-kept / dup; kind = class of the object, `slice` for a slice signal,
-`ancestor-block` for a constraint declared by a component above the signal's / method's own),
-reachable:<container>{key|value} for a removed object the sweep still reaches,
-replace-raises:<exception>@<pymtl3 call site>, and sim-differs|<m> / sim-raises:<exception>@<pass
-function>><innermost pymtl3 function>|<m> where <m> lists the metadata keys of the same design
-(`metadata-equal` when there are none).  The two families run side by side (threads; one shared
-pool of replay processes); designs are built in the main process by one thread at a time.
+`ancestor-block` for a constraint declared by a component above the signal's / method's own,
+`grandparent-block` for a read / write / call of a block two or more levels above the object's
+component), reachable:<container>{key|value} for a removed object the sweep still reaches,
+replace-raises:<exception>@<caller>><pymtl3 call site>[|stale-in:<who still holds a removed object>],
+and sim-differs[<pass group>]|<m> / sim-raises[<pass group>]:<exception>@<pass function>><innermost
+pymtl3 function>|<m> where <m> lists the metadata keys of the same design (`metadata-equal` when
+there are none; the pass group is omitted for DefaultPassGroup).  The families run side by side
+(threads; one shared pool of replay processes); designs are built in the main process by one thread
+at a time.
 
 NOTE: the per-class local metadata and the harness metadata given to TLC are extracted from designs
-built from scratch (trusted base: plain elaboration; the extraction is checked to be independent of
-position and neighbours on every run).  Names are compared, not objects, except that a name only
-counts when walking it from the top reaches that very object.  connect order is compared as a set.
-Only what the public getters return is compared (signal / method-port sets = get_all_object_filter);
-@s.func read/write sets have no getter and are not compared.  In the quick tier the length-3
-scenario uses 3 positions x 3 classes (thorough: 4 classes, length 4).
+built from scratch (trusted base: plain elaboration; the extraction is checked on every run: every
+design built must equal Harness + UNION Local[class] renamed to its position).  Names are compared,
+not objects, except that a name only counts when walking it from the top reaches that very object.
+connect order is compared as a set.  Only what the public getters return is compared (signal /
+method-port sets = get_all_object_filter); @s.func read/write sets have no getter and are not
+compared.  Method calls made inside @s.func helpers do not take part in pymtl3's method constraints,
+so the helpers of the harness only call what commutes (a stateless method, rdy()); SimpleSimPass
+breaks schedule ties with the global random generator and is only used for the families whose
+behaviour does not depend on the order of method calls (RTL, PB).  Configurations holding a
+placeholder are not simulated.
 """
 import collections
 import copy
@@ -105,9 +137,10 @@ def scenarios(tier, famname):
     nest_p = fam.hosts + fam.nested
     # replace_component on a hosting position after its nested position has changed (the API falls back
     # to the constructor arguments of the removed host) needs both calls at every step
-    nested = dict(name="nested-len2", inits=base, positions=nest_p, palette=allc, kinds="both", maxlen=2)
+    nested = dict(name="nested-len2", inits=base, positions=nest_p, palette=nest_c, kinds="both", maxlen=2)
     if quick:
-        return [nested, dict(name="uniform-inits", inits=uni, positions=allp, palette=allc, kinds="both", maxlen=1),
+        uni_p = [p for p in allp if p not in ("c[0]", "d[0][1]")]       # (those two are in sub-len3)
+        return [nested, dict(name="uniform-inits", inits=uni, positions=uni_p, palette=allc, kinds="both", maxlen=1),
                 dict(name="pairs-len2", inits=base, positions=pair_p, palette=pair_c, kinds="alt", maxlen=2),
                 dict(name="sub-len3", inits=base, positions=sub_p, palette=sub_c, kinds="alt", maxlen=3)]
     return [dict(nested, name="nested-len3", maxlen=3, palette=nest_c),
@@ -255,6 +288,9 @@ class Replayer:
         for out, table in self.pool.imap_unordered(J.run_chunk, chunks):
             self.table.update(table)
             for r in out:
+                if r.get("harness_error"):
+                    raise MachineryError("replaying %s failed outside the calls under test:\n%s"
+                                         % (r.get("job"), r["harness_error"]))
                 recs[r["id"]] = r
         if len(recs) != len(jobs):
             raise MachineryError("replay pool lost jobs (%d of %d)" % (len(recs), len(jobs)))
@@ -358,7 +394,8 @@ class Findings:
         self.count[key] += 1
         rank = (len(rec["steps"]), json.dumps(rec["steps"]), json.dumps(rec["init"], sort_keys=True))
         if key not in self.best or rank < self.best[key][0]:
-            detail = {"family": rec["fam"], "init": rec["init"], "history": rec["steps"]}
+            detail = {"family": rec["fam"], "init": rec["init"], "history": rec["steps"],
+                      "objects_built_beforehand": bool(rec.get("pre"))}
             detail.update(extra)
             self.best[key] = (rank, what, detail)
 
@@ -415,16 +452,18 @@ def judge(F, rec, tlc_verdict=None):
         # (it is their consequence; another metadata difference gives another key); without any it
         # stands alone
         sfx = "+".join(mk) if mk else "metadata-equal" if last else "metadata-not-compared"
+        pg = "" if s.get("pg", "DefaultPassGroup") == "DefaultPassGroup" else "[%s]" % s["pg"]
         if s["kind"] == "differs":
-            F.add("sim-differs|%s" % sfx,
-                  "%s: simulation differs from the design built from scratch at cycle %d: %s vs %s (metadata "
-                  "differences of this design: %s)" % (h, s["cycle"], str(s["replaced"])[:300], str(s["fresh"])[:300],
-                                                      mk or "none"), rec, {"sim": s, "metadata": mk})
-        elif s["kind"] == "raises":
-            F.add("sim-raises:%s@%s|%s" % (s["exc"], s["where"], sfx),
-                  "%s: simulating the mutated design raises %s in %s (%s); the design built from scratch simulates "
+            F.add("sim-differs%s|%s" % (pg, sfx),
+                  "%s: simulation under %s differs from the design built from scratch at cycle %d in %s: %s vs %s "
                   "(metadata differences of this design: %s)"
-                  % (h, s["exc"], s["where"], s["msg"].splitlines()[0] if s["msg"] else "", mk or "none"),
+                  % (h, s.get("pg"), s["cycle"], s.get("where") or "the final record", str(s["replaced"])[:300],
+                     str(s["fresh"])[:300], mk or "none"), rec, {"sim": s, "metadata": mk})
+        elif s["kind"] == "raises":
+            F.add("sim-raises%s:%s@%s|%s" % (pg, s["exc"], s["where"], sfx),
+                  "%s: simulating the mutated design under %s raises %s in %s (%s); the design built from scratch "
+                  "simulates (metadata differences of this design: %s)"
+                  % (h, s.get("pg"), s["exc"], s["where"], s["msg"].splitlines()[0] if s["msg"] else "", mk or "none"),
                   rec, {"sim": s, "metadata": mk})
         elif s["kind"] in ("fresh-raises", "both-raise"):
             raise MachineryError("the design built from scratch for %s cannot be simulated: %s" % (h, s))
@@ -492,7 +531,14 @@ def run(res, tier):
                 for fu in futs:
                     fu.result()
             with phase("canaries"):
-                _canaries(res, rp, rng("c15-canaries"))
+                try:
+                    _canaries(res, rp, rng("c15-canaries"))
+                except MachineryError as e:
+                    # the canaries that exercise the repository (sweep, simulation) can be upset by the very
+                    # defect that the violations found above report: the violations are the verdict then
+                    if not F.best:
+                        raise
+                    res.note("canary_failed_next_to_violations", str(e)[:500])
     finally:
         rp.close()
     F.flush(res)
@@ -502,20 +548,25 @@ def run(res, tier):
              "API call, bounded length, one or several uniform initial designs) is replayed on real designs; "
              "code->spec: random histories of length %d with an observation after every step; a case is one "
              "history (initial configuration + sequence of (call, position, class))" % (8 if quick else 14))
-    res.assume("fresh designs are compositional (checked on every run: every class in every position, uniform "
-               "configurations); the palette classes share one port interface")
+    res.assume("fresh designs are compositional (checked on every run: every class in every position it fits, "
+               "uniform and random configurations); the classes that fit one position share one port interface")
     res.assume("connect order is compared as a set; per-component _dsl.consts is not compared")
-    res.assume("simulation: DefaultPassGroup, %d cycles of seeded inputs; configurations holding a placeholder are "
-               "not simulated" % NCYC)
+    res.assume("simulation: DefaultPassGroup, Mamba2020, SimpleSimPass (not for the CL family; quick tier: Default and "
+               "one of the others in turn), %d cycles of seeded inputs, outputs and every signal compared every "
+               "cycle; configurations holding a placeholder are not simulated" % NCYC)
+    res.assume("replace_component_with_obj on a hosting position is given an object built with the classes "
+               "currently below it")
 
 
 def _pgs(fam, tier, i):
     """pass groups under which history number i is simulated: all of the family's in the thorough tier;
-    in the quick tier DefaultPassGroup and, in turn, one of the others"""
+    in the quick tier DefaultPassGroup and, for every other history, in turn one of the others"""
     pgs = list(fam.pass_groups)
-    if tier != "quick" or len(pgs) <= 2:
+    if tier != "quick":
         return pgs
-    return [pgs[0], pgs[1 + i % (len(pgs) - 1)]]
+    if i % 2:
+        return pgs[:1]
+    return [pgs[0], pgs[1 + (i // 4) % (len(pgs) - 1)]]
 
 
 def _family(res, tier, famname, rp, F, R, sd):
@@ -563,8 +614,8 @@ def _family(res, tier, famname, rp, F, R, sd):
         res.note("histories_%s_%s" % (famname, sc["name"]), len(hs))
         for (icfg, path) in hs:
             # every other history hands replace_component_with_obj objects built before the design
-            jobs.append(dict(id=nid, fam=famname, init=icfg, steps=path, check="last", sim=True, pre=nid % 2 == 1,
-                             pgs=_pgs(fam, tier, nid // 2)))
+            jobs.append(dict(id=nid, fam=famname, init=icfg, steps=path, check="last", sim=True, pre=nid % 4 in (1, 2),
+                             pgs=_pgs(fam, tier, nid)))
             nid += 1
     seen = {}
     for j in jobs:                                # scenarios overlap: replay a history once
@@ -601,7 +652,7 @@ def _family(res, tier, famname, rp, F, R, sd):
         mv = fam.moves()
         steps = [(R.choice(["Replace", "ReplaceWithObj"]),) + R.choice(mv) for _ in range(ln)]
         jobs.append(dict(id=("long", i), fam=famname, init=init, steps=steps, check="all", sim=True, pre=i % 2 == 1,
-                         pgs=_pgs(fam, tier, i // 2)))
+                         pgs=_pgs(fam, tier, i)))
     with ph("random-replay"):
         recs = rp.run(jobs, chunk=2)
     # simulation after every intermediate step needs an unmutated copy: replay the prefixes
@@ -611,7 +662,7 @@ def _family(res, tier, famname, rp, F, R, sd):
         upto = (r["raised"]["step"] - 1) if r["raised"] else len(r["steps"]) - 1
         for k in range(1, upto + 1):
             pjobs.append(dict(id=("prefix", i, k), fam=famname, init=r["init"], steps=r["steps"][:k], check="last",
-                              sim=True, pre=r["pre"], pgs=_pgs(fam, tier, i // 2 + k)))
+                              sim=True, pre=r["pre"], pgs=_pgs(fam, tier, i + k)))
     with ph("random-replay"):
         precs = rp.run(pjobs, chunk=8)
     traces, order = [], []
@@ -792,11 +843,14 @@ def _canaries(res, rp, R):
         # (d) sweep: a removed object planted in a _dsl container must be found
         top = fam.build(g)
         removed = J.apply_step(fam, top, "Replace", p0, g[p0], g)
-        victim = next(o for (o, d) in removed if d.startswith("InPort") or d.startswith("CalleePort"))
-        top._dsl.all_U_U_constraints.add((victim, victim))
-        hit = [p for (p, d) in J.sweep(top, removed) if "all_U_U_constraints" in p]
-        if not hit:
-            raise MachineryError("canary: sweep does not find a removed object planted in top._dsl.all_U_U_constraints")
+        reached = {d for (_, d) in J.sweep(top, removed)}       # (a defect may make removed objects reachable)
+        victim = next((o for (o, d) in removed if (d.startswith("InPort") or d.startswith("CalleePort"))
+                       and d not in reached), None)
+        if victim is not None:
+            top._dsl.all_U_U_constraints.add((victim, victim))
+            hit = [p for (p, d) in J.sweep(top, removed) if "all_U_U_constraints" in p]
+            if not hit:
+                raise MachineryError("canary: sweep does not find a removed object planted in top._dsl.all_U_U_constraints")
         ncan += 1
         # (e) simulation comparison: the design for another class at one position must be told apart
         # from the design built from scratch under every pass group, and a register of the harness that
@@ -880,7 +934,8 @@ def replay(obj):
         print(json.dumps(obj, indent=1))
         return 0
     inputs = _inputs()
-    rec = J.replay_history(d["family"], d["init"], [tuple(s) for s in d["history"]], inputs[d["family"]], check="all")
+    rec = J.replay_history(d["family"], d["init"], [tuple(s) for s in d["history"]], inputs[d["family"]], check="all",
+                           pre=d.get("objects_built_beforehand", False))
     for c in rec["checks"]:
         c.pop("obs", None)
     print(json.dumps(rec, indent=1, default=str))
